@@ -13,9 +13,11 @@
 //     Y000:<n>          pop_n(cb, reverse_cb, n)    (compensating: pushes fillers >= 1000000 when empty)
 //     D<cwk>            drain: try_pop<c,k> until every producer thread has finished and the queue is empty
 //     A000:<ms>         let virtual time pass
-//     g<cwk>            try_pop<c,k> whose callback, holding the slot it was given, stays there until every producer thread
-//                       has finished (producers of such programs only use try_ calls, so they always finish)
-//     h<cwk>:<v>        try_push<c,k>(v) whose callback stays in its slot until every thread issuing m ops has finished
+//     g<cwk>            try_pop<c,k>, retried until it gets an element; its callback, holding the slot it was given, stays
+//                       there until every producer thread has finished (producers of such programs only use try_ calls,
+//                       so they always finish)
+//     h<cwk>:<v>        try_push<c,k>(v), retried likewise; its callback stays in its slot until every thread issuing m ops
+//                       has finished
 //   a letter right after the flags picks the public overload (default: callback overload with template arguments):
 //     v value / reference   q pointer   i iterators   d callback, no template arguments   e value, no template arguments
 //     r pointer, no template arguments   j iterators, no template arguments     (the last four need flags 111 / try_: c=k=1)
@@ -224,8 +226,10 @@ int main(int argc, char** argv) {
 #undef CALL
               }
               break;
-#define CALL(C, W, K) op.cnt = q.try_push<C, K>(wrhh) ? 1 : 0
-            case 'h': DISPATCH3(op.fl, CALL); break;
+#define CALL(C, W, K) okv = q.try_push<C, K>(wrhh)
+            case 'h':   // retried until it gets a slot (then it stays inside the callback) or the m-threads are gone
+              while (true) { DISPATCH3(op.fl, CALL); if (okv) { op.cnt = 1; break; } if (!hold_h()) break; sched_yield(); }
+              break;
 #undef CALL
             case 'o':
               switch (op.en) {
@@ -239,8 +243,10 @@ int main(int argc, char** argv) {
 #undef CALL
               }
               break;
-#define CALL(C, W, K) op.cnt = q.try_pop<C, K>(rdg) ? 1 : 0
-            case 'g': DISPATCH3(op.fl, CALL); break;
+#define CALL(C, W, K) okv = q.try_pop<C, K>(rdg)
+            case 'g':   // retried until it gets an element (then it stays inside the callback) or the producers are gone
+              while (true) { DISPATCH3(op.fl, CALL); if (okv) { op.cnt = 1; break; } if (!hold_g()) break; sched_yield(); }
+              break;
 #undef CALL
             case 'N':
               switch (op.en) {
